@@ -8,6 +8,7 @@ struct Early {
     Early();
     std::string bytes;
     bool roundTrip = false;
+    bool completed = false; // false: the scratch file could not be written or read in this environment (nothing is judged then)
 };
 static Early g_early;
 } // namespace bgsim_early
@@ -80,12 +81,14 @@ bgsim_early::Early::Early() {
         gs::readFileBytes(p, bytes);
         auto h = BaseGraph::io::loadBinaryEdgeList<BaseGraph::LabeledDirectedGraph, int>(p);
         roundTrip = h.getSize() == 3 && h.getEdgeNumber() == 1 && h.hasEdge(1, 2, 300);
+        completed = true;
     } catch (...) {}
     remove(p.c_str());
 }
 namespace simdisk {
 const std::string &earlyBytes() { return bgsim_early::g_early.bytes; }
 bool earlyRoundTrip() { return bgsim_early::g_early.roundTrip; }
+bool earlyCompleted() { return bgsim_early::g_early.completed; }
 } // namespace simdisk
 static int rmOne(const char *p, const struct stat *, int, struct FTW *) { return remove(p); }
 static void cleanup() {
